@@ -7,6 +7,21 @@ HERE = os.path.dirname(os.path.dirname(os.path.abspath(__file__)))
 
 # property -> (technique, level text, level note, design ref)
 CLAIMED = {
+    "C18": (
+        "mirror-pair analysis of every comparison in Comparison.compare_parameters, loop-shape "
+        "rules for the classification loops, repeated-test and literal-attribute lints typed "
+        "through annotations, def-use check of the metrics row, no-memoisation rule",
+        "Decides necessary structural conditions of the tools' classification: every attribute "
+        "the property lists is compared as the same attribute path of the new and the old "
+        "parameter (no defaulting that hides a change) and the same two values are reported; "
+        "request/positive/negative response parameters are paired by position; no "
+        "classification branch is dead; the deleted-service loop visits every old service; the "
+        "overview counts are len() of the printed layer's own collections; nothing is cached "
+        "across calls.",
+        "Not decided: the metamorphic relation over concrete edits. Known findings: the dead "
+        "'renamed' branch and the deleted-service check nested in the new-services loop. "
+        "Trusted: annotation-based receiver typing.",
+        "DESIGN.md section 3, C18"),
     "C16": (
         "effect summaries of every mutator/copier of ItemAttributeList checked with "
         "must-pass-through queries on the per-method CFG; decision-table check of the collision "
